@@ -39,6 +39,8 @@ CONSTANTS Types,      \* event types the source declares
           SubTypes,   \* types that may be subscribed to
           MaxSubs, MaxRaises, MaxUnsubs, MaxDepth, MaxOps,
           WithDrop,   \* owners may die
+          RemovedMayBeSkipped, \* FALSE: a handler unsubscribed by ANOTHER handler before its
+                      \* turn is still due ("subscribed at that moment", DESIGN 2.8)
           Probes,     \* extra budget of RaiseSimple beyond MaxRaises
           D           \* export depth
 
@@ -96,7 +98,9 @@ Log(a, args, exp) ==
 \*   sb, fr, dd: subscriptions / freed / dead AFTER the command
 Outcomes(below, f, sb, fr, dd, endOnly) ==
   LET n == Len(f.due)
-      skippable(i) == DeadWeak(f.due[i], dd) \/ f.due[i].id \in fr
+      skippable(i) == \/ DeadWeak(f.due[i], dd)
+                      \/ f.due[i].id \in fr
+                      \/ (RemovedMayBeSkipped /\ f.due[i].id \notin Ids(sb))
       dueC == {i \in (f.pos + 1)..n :
                  /\ ~DeadWeak(f.due[i], dd)
                  /\ \A j \in (f.pos + 1)..(i - 1) : skippable(j)}
@@ -331,7 +335,9 @@ FreedGone == freed \cap Ids(subs) = {}
 \* whenever a due handler has been invoked, every due handler before it has
 \* been invoked as well or is excused (owner died / consumed by a nested
 \* delivery); nothing beyond the cursor has been invoked.
-Excused(r) == DeadWeak(r, dead) \/ r.id \in freed
+Excused(r) == \/ DeadWeak(r, dead)
+              \/ r.id \in freed
+              \/ (RemovedMayBeSkipped /\ r.id \notin Ids(subs))
 InOrder ==
   \A k \in DOMAIN stack :
     LET f == stack[k] IN
@@ -363,7 +369,7 @@ Complete ==
   [][(last'.a = "Return" /\ Len(stack') < Len(stack) /\ last'.exp.res = "event"
         /\ ~last'.exp.halt /\ last'.args.rv # "throw" /\ ~Top.threw) =>
        \A i \in 1..Len(Top.due) :
-         Top.due[i].id \in Top.inv \/ DeadWeak(Top.due[i], dead) \/ Top.due[i].id \in freed]_vars
+         Top.due[i].id \in Top.inv \/ Excused(Top.due[i])]_vars
 
 \* halting ends the delivery at once, and the event says so
 HaltStops ==
